@@ -18,9 +18,24 @@ ASSUMPTIONS = c01.ASSUMPTIONS + [
 
 def build_history(rng, tier):
     g = hist.Gen(rng, 2)
-    kind = rng.choice(["plain", "split", "split"])
+    kind = rng.choice(["plain", "split", "split", "longrows"])
     sts = []
-    if kind == "plain":
+    if kind == "longrows":
+        # rows within the last bytes of the 400-byte limit: their log records are the longest there are
+        sts.append(g.create(cols=[("a", "int", 0), ("pad", "varchar", 400)]))
+        name = sts[0]["table"]
+        sts.append(g.insert(name, nrows=2))
+        for _ in range(rng.randint(2, 4)):
+            rows = []
+            for _ in range(rng.choice([1, 2, 3])):
+                g.counter += 1
+                size = rng.choice([396, 397, 398, 399, 400, 400, 350])
+                rows.append([g.counter, "p" * (size - 10)])          # 5 bytes INT + 5 + len
+            sts.append({"k": "insert", "table": name, "cols": [], "rows": rows})
+            if rng.random() < 0.5:
+                sts.append({"k": "update", "table": name, "sets": [("pad", "u" * rng.choice([386, 388, 390, 5]))],
+                            "where": [[(("col", "", "a"), "=", g.counter)]]})
+    elif kind == "plain":
         sts.append(g.create())
         for _ in range(rng.randint(3, 8)):
             r = rng.random()
